@@ -164,7 +164,9 @@ func (h *Session) findOrCreateHostWithLock(addr Addr) (host *Host, found bool) {
 func (h *Session) deleteHost(ip netip.Addr) {
 	if host := h.findIP(ip); host != nil {
 		if Logger.IsDebug() {
+			host.MACEntry.Row.RLock() // host fields are protected by the row lock
 			Logger.Msg("delete host").IP("ip", ip).Struct(host).Write()
+			host.MACEntry.Row.RUnlock()
 		}
 		host.MACEntry.Row.Lock() // the host list is read under the row lock
 		host.MACEntry.unlink(host)
